@@ -397,8 +397,10 @@ pub fn execute(h: &History, want: &str, rep: &mut Report) -> Option<Violation> {
 // ------------------------------------------------------------------------------------------------
 // workloads
 
-pub const FS_LIST: [f32; 16] =
-    [100.0, 128.0, 200.0, 256.0, 441.0, 512.0, 999.0, 1000.0, 1001.0, 1024.0, 8000.0, 22050.0, 44100.0, 48000.0, 96000.0, 192000.0];
+pub const FS_LIST: [f32; 28] = [
+    100.0, 125.0, 128.0, 200.0, 256.0, 441.0, 512.0, 999.0, 1000.0, 1001.0, 1024.0, 2000.0, 4000.0, 8000.0, 11025.0, 16000.0, 22050.0, 24000.0, 32000.0, 44100.0, 48000.0, 64000.0, 88200.0, 96000.0,
+    128000.0, 176400.0, 191999.0, 192000.0,
+];
 
 pub fn pick_fs(r: &mut Rng) -> f32 {
     if r.chance(0.5) {
